@@ -148,6 +148,15 @@ def capture_of(r, name):
                          % (name, r.get("outcome"), r.get("exc_type")))
 
 
+def pauses_observable(r, expected_n, delay):
+    """Pauses are observed through a virtual time.sleep.  A loader that waits by other means (an Event, select)
+    leaves the recorded list short while the real clock shows the wait: the hook was bypassed - inconclusive."""
+    if expected_n > 0 and len(r.get("sleeps") or []) < expected_n and \
+            float(r.get("elapsed") or 0.0) >= 0.9 * delay * expected_n:
+        raise HookNotReached("%.2f s of real time passed with %d of %d pauses seen by the virtual time.sleep: the "
+                             "loader waits by other means, inconclusive" % (r["elapsed"], len(r.get("sleeps") or []), expected_n))
+
+
 def same_data(got, want):
     """compare a child's data description with the expected one (shape, dtype, content hash)"""
     if isinstance(want, list):
